@@ -50,7 +50,7 @@ def constraint_sets(spec, method):
     s2 = [Con('<=', x0 * x0 + nl1(x1), t + T, include_first=False),
           Con('>=', x1 - t0, -2, include_last=False),
           Con('==', at_t0(x0), at_tf(x0)),
-          Con('<=', at_tf(x1) - at_t0(x1), T)]
+          Con('<=', at_tf(x1) - at_t0(x1), tf)]
     if u is not None:
         s2.append(Con('<=', u * u, 4 + a, include_first=False, include_last=False))
     sets.append(s2)
